@@ -705,6 +705,7 @@ def work(args):
     try:
         cases = []
         lines = []
+        prev = None
         for c in range(lo, hi):
             cat, tags, map_file, content = gen_case(seed, c)
             seen, runs, second, reread, dest = observe_file(wd, 'f%d' % c, content)
@@ -726,6 +727,46 @@ def work(args):
                     {'document': content, 'argv': argv, 'category': cat, 'tags': tags, 'map': map_file,
                      'call': 'pyx12.scripts.x12norm.main() with sys.argv = [x12norm] + argv + [file holding the document]',
                      'observed': what, 'required': required}))
+            # several inputs in one invocation: each file is treated as if it were given alone (longer file first and
+            # shorter file first; in place and to stdout)
+            if prev is not None and c % 3 == 0:
+                pcontent, pruns = prev
+                for eol, fix in (OPTS[c % len(OPTS)], OPTS[(c + 1) % len(OPTS)]):
+                    if pruns[(eol, fix)][0] != 'K' or runs[(eol, fix)][0] != 'K':
+                        continue
+                    for order in ((pcontent, pruns, content, runs), (content, runs, pcontent, pruns)):
+                        pa, pb = os.path.join(wd, 'm%da.x12' % c), os.path.join(wd, 'm%db.x12' % c)
+                        write_raw(pa, order[0])
+                        write_raw(pb, order[2])
+                        argv = flags(eol, fix) + ['-i', pa, pb]
+                        g = run_main(argv)
+                        ca, cb = read_raw(pa), read_raw(pb)
+                        agg['runs'] += 1
+                        wa, wb = order[1][(eol, fix)][1], order[3][(eol, fix)][1]
+                        if g[0] != 'K' or ca != wa or cb != wb:
+                            which = 'first' if ca != wa else 'second'
+                            got = ca if ca != wa else cb
+                            want = wa if ca != wa else wb
+                            agg['viol'].setdefault('pred:several-inputs-differ', []).append((
+                                'two input files in one in-place invocation (options %s): the %s file ends as %r..., alone it is normalised to %r...' % (
+                                    ' '.join(flags(eol, fix)) or 'none', which, (got or '')[-120:], (want or '')[-120:]),
+                                {'documents': [order[0], order[2]], 'argv': flags(eol, fix) + ['-i', '<file 1>', '<file 2>'], 'category': cat,
+                                 'call': 'pyx12.scripts.x12norm.main() with two input files', 'observed': g[0],
+                                 'required': 'each file rewritten exactly as when given alone'}))
+                        write_raw(pa, order[0])
+                        write_raw(pb, order[2])
+                        g = run_main(flags(eol, fix) + [pa, pb])
+                        agg['runs'] += 1
+                        if g != ('K', wa + wb):
+                            agg['viol'].setdefault('pred:several-inputs-differ', []).append((
+                                'two input files to stdout (options %s): output differs from the two single-file outputs in order' % (' '.join(flags(eol, fix)) or 'none'),
+                                {'documents': [order[0], order[2]], 'argv': flags(eol, fix) + ['<file 1>', '<file 2>'], 'category': cat,
+                                 'call': 'pyx12.scripts.x12norm.main() with two input files', 'observed': repr(g)[:300],
+                                 'required': 'concatenation of the single-file outputs'}))
+                        for q in (pa, pb):
+                            if os.path.exists(q):
+                                os.remove(q)
+            prev = (content, runs)
             import hashlib
             for eol, fix in OPTS:
                 agg['hashes'].add(hashlib.blake2b(repr((content, eol, fix)).encode('utf-8', 'surrogatepass'), digest_size=8).digest())
